@@ -414,6 +414,13 @@ func main() {
 			comp, role := genComp(rRes), genComp(rRes)
 			entry := r.Pick([]string{"entry", "cfg", "e1", "t/u", "a/b/c", "x_y-z"})
 			rtn := rtNums[rRes.Intn(len(rtNums))]
+			// boundary queries: the fallback values themselves as run type / role name
+			if rRes.Chance(1, 4) {
+				rtn = int32(apricotpb.RunType_ANY)
+			}
+			if rRes.Chance(1, 4) {
+				role = componentcfg.FALLBACK_ROLENAME
+			}
 			q := qj{comp, rtn, role, entry}
 			rtName := apricotpb.RunType_name[rtn]
 			cands := []string{
